@@ -53,6 +53,8 @@ def scenarios(tier, seed):
     scs = [base_scenario(rng) for _ in range(1500 if tier == "thorough" else 300)]
     rl = random.Random(seed + 29)
     for sc in scs:        # every plug-in named by absolute path (with / without .py), by a path relative to the working directory or as a module on sys.path
+        if rl.random() < 0.12:
+            sc["via_cli"] = True
         if rl.random() < 0.7:
             sc["plugstyle"] = {k: rl.choice(["abs.py", "abs", "rel", "name"]) for k in ("time", "state", "grid", "forcing", "tracker", "release", "output")}
     return scs
